@@ -298,3 +298,68 @@ theorem validating_resolution (s d : Option Bool) :
   cases s <;> cases d <;> rfl
 
 end CssVerif.C13
+
+namespace CssVerif.C13
+open CssVerif CssVerif.Validate CssVerif.Proto CssVerif.Css21
+
+set_option maxRecDepth 100000
+
+/-! ## T13.4 [W2] — single `<integer>` / `<number>` / `<length>` / `<percentage>` (and keywords) -/
+
+/-- general lemma: a pattern built from small positive classes, `[class]*`, concatenation, alternation, bounded
+repetition and a final `$` accepts a value (not ending in a line feed) iff the value matches one of its finitely
+many templates — for every such pattern and every string. -/
+theorem template_pattern_accepts_exactly (r : Re) (T : List Template) (h : r.templatesE = some T) (s : Str)
+    (hs : s.getLast? ≠ some 10) : accepts r s = true ↔ member T s = true :=
+  Re.templatesE_spec_noLF r T h s hs
+
+/-- `none`, accepted by cssutils for `min-width` / `min-height` beyond CSS 2.1 (finding `C13-min-size-none`) -/
+def extraFor (prop : String) : List Template :=
+  if prop == "min-width" || prop == "min-height" then [kw "none"] else []
+
+/-- table check (finite computation, kernel-evaluated) for the 35 single-value properties of
+`Css21.typedProps`: the registered pattern's templates are among the CSS 2.1 templates of the property
+(plus `none` for `min-width`/`min-height`), and contain every CSS 2.1 template without a leading `+`. -/
+theorem typed_table_check :
+    (Css21.typedProps.all fun e =>
+      match firstPattern e.1 with
+      | some r => typedAgree r e.2 (extraFor e.1)
+      | none => false) = true := by decide +kernel
+
+/-
+T13.4 [W2], full statement (does NOT hold — known findings `C13-plus-sign`, `C13-min-size-none`):
+  ∀ s, s.getLast? ≠ some 10 → (accepts r s = true ↔ member (CSS 2.1 templates of prop) s = true)
+-/
+/-- T13.4 [W2] partial, both directions with their exact guards. For every single-value property of
+`Css21.typedProps` and every value text not ending in a line feed:
+(soundness) what the registered check accepts is in the CSS 2.1 grammar of the property — or is `none` for
+`min-width`/`min-height`; (completeness) every value of the CSS 2.1 grammar that is not written with a leading
+`+` sign is accepted. -/
+theorem single_type_agreement_partial (prop : String) (spec : List Template)
+    (hmem : (prop, spec) ∈ Css21.typedProps) :
+    ∃ r, firstPattern prop = some r ∧ ∀ s : Str, s.getLast? ≠ some 10 →
+      (accepts r s = true → member (spec ++ extraFor prop) s = true) ∧
+      (member (noPlus spec) s = true → accepts r s = true) := by
+  have h := List.all_eq_true.1 typed_table_check (prop, spec) hmem
+  cases hp : firstPattern prop with
+  | none => simp [hp] at h
+  | some r =>
+    simp only [hp] at h
+    exact ⟨r, rfl, fun s hs => typedAgree_spec r spec (extraFor prop) h s hs⟩
+
+/-- non-vacuity, and what the templates mean on examples (tests, not theorems) -/
+example : member Css21.length (cps "-1.5em") = true ∧ member Css21.length (cps "1.5") = false ∧
+    member Css21.length (cps "0") = true ∧ member Css21.integer (cps "+12") = true ∧
+    member Css21.integer (cps "1.0") = false ∧ member Css21.percentage (cps ".5%") = true ∧
+    member Css21.number (cps "1.") = false ∧ member (noPlus Css21.length) (cps "+1px") = false ∧
+    member Css21.length (cps "1PX") = true := by decide +kernel
+
+/-- the findings, machine-checked: `+1px` is a CSS 2.1 `<length>` that the `width` check rejects;
+`none` is accepted for `min-width` although it is not in its CSS 2.1 grammar -/
+example : (firstPattern "width").map (fun r => accepts r (cps "+1px")) = some false ∧
+    member Css21.length (cps "+1px") = true ∧
+    (firstPattern "min-width").map (fun r => accepts r (cps "none")) = some true ∧
+    (Css21.typedProps.lookup "min-width").map (fun T => member T (cps "none")) = some false := by
+  decide +kernel
+
+end CssVerif.C13
